@@ -142,7 +142,7 @@ std::vector<Item> dump_state(const Schedule& sched, std::size_t step, const Summ
     // ---- well lists
     {
         const auto& wlm = ss.wlist_manager.get();
-        for (const auto& wn : wnames) { std::vector<std::string> l = wlm.hasWList(wn) ? wlm.getWListNames(wn) : std::vector<std::string>{}; std::sort(l.begin(), l.end()); std::string s; for (auto& x : l) s += x + ","; d.s("wlist_of." + wn, s); }
+        for (const auto& wn : wnames) { std::vector<std::string> l; if (wlm.hasWList(wn)) for (const auto& ln : wlm.getWListNames(wn)) if (wlm.hasList(ln) && wlm.getList(ln).has(wn)) l.push_back(ln);   /* getWListNames() is the well's positional SLOT list of the restart layout: it keeps the name of a list the well has left */ std::sort(l.begin(), l.end()); l.erase(std::unique(l.begin(), l.end()), l.end()); std::string s; for (auto& x : l) s += x + ","; d.s("wlist_of." + wn, s); }
     }
     // ---- UDQ definitions
     if (o.udq) {
